@@ -159,6 +159,19 @@ func (e *Env) ident(name string) Val {
 	if gv, ok := e.g.cs.Ghosts[name]; ok {
 		return e.ghostVal(gv)
 	}
+	// local variables that live in memory (captured by closures / address taken)
+	for c := e.fc; c != nil; c = c.parent {
+		if al, ok := c.named[name]; ok {
+			if v, ok := c.vals[al]; ok {
+				T := al.Type().Underlying().(*types.Pointer).Elem()
+				saved := c.cur
+				c.cur = e.state
+				t := c.loadWhole(v.t, T)
+				c.cur = saved
+				return Val{t: t, ty: T}
+			}
+		}
+	}
 	if e.pkg != nil {
 		if v, ok := e.lookupPkgObj(e.pkg, name); ok {
 			return v
@@ -615,6 +628,104 @@ func (e *Env) call(n *CNode) Val {
 		fn := "|setOf!" + sanitize(es) + "|"
 		g.declareFun(fn, "(Slice (Array Int "+es+")) (Array "+es+" Bool)")
 		return Val{t: fmt.Sprintf("(%s %s (select %s (sarr %s)))", fn, v.t, g.get(e.state, k), v.t), gk: "set", ge: st.Elem(), gs: "(Array " + es + " Bool)"}
+	case "umHas", "umGet", "umDom", "umVals":
+		// ghost content of a core/util.Map[K,V] field: umHas(x.f, k), umGet(x.f, k), umDom(x.f), umVals(x.f)
+		if len(n.Args) < 1 || n.Args[0].Kind != "field" {
+			cxFail("%s needs a field expression of type util.Map", n.Name)
+		}
+		base := e.expr(n.Args[0].Args[0])
+		T := base.ty
+		if p, ok := T.Underlying().(*types.Pointer); ok {
+			T = p.Elem()
+		}
+		st := T.Underlying().(*types.Struct)
+		for i := 0; i < st.NumFields(); i++ {
+			if st.Field(i).Name() != n.Args[0].Name {
+				continue
+			}
+			mt, ok := st.Field(i).Type().(*types.Named)
+			if !ok || mt.TypeArgs().Len() != 2 {
+				cxFail("%s: field is not a util.Map", n.Name)
+			}
+			K, V := mt.TypeArgs().At(0), mt.TypeArgs().At(1)
+			kd, kv := g.umapKeys(K, V)
+			m := e.fc.interiorTerm(base.t, T, i)
+			ks := g.sortOf(K)
+			switch n.Name {
+			case "umHas":
+				k := e.expr(n.Args[1])
+				return Val{t: fmt.Sprintf("(select (select %s %s) %s)", g.get(e.state, kd), m, k.t), ty: tBool}
+			case "umGet":
+				k := e.expr(n.Args[1])
+				return Val{t: fmt.Sprintf("(select (select %s %s) %s)", g.get(e.state, kv), m, k.t), ty: V}
+			case "umDom":
+				return Val{t: fmt.Sprintf("(select %s %s)", g.get(e.state, kd), m), gk: "set", ge: K, gs: "(Array " + ks + " Bool)"}
+			default:
+				return Val{t: fmt.Sprintf("(select %s %s)", g.get(e.state, kv), m), gk: "gmap", gkt: K, ge: V, gs: "(Array " + ks + " " + g.sortOf(V) + ")"}
+			}
+		}
+		cxFail("%s: no such field", n.Name)
+	case "preservedCells", "preservedArrays", "preservedFields", "preservedMaps":
+		// heap cells/arrays/fields/maps of objects that existed at function entry still have their entry contents
+		if e.fc.entry == nil {
+			cxFail("%s: no entry state", n.Name)
+		}
+		var keys []string
+		switch n.Name {
+		case "preservedCells":
+			T, _ := e.resolveType(n.Args[0].String())
+			keys = []string{g.cellKey(T)}
+		case "preservedArrays":
+			T, _ := e.resolveType(n.Args[0].String())
+			keys = []string{g.arrKey(T)}
+		case "preservedMaps":
+			K, _ := e.resolveType(n.Args[0].String())
+			V, _ := e.resolveType(n.Args[1].String())
+			kd, kv := g.mapKeys(types.NewMap(K, V))
+			keys = []string{kd, kv}
+		default:
+			if n.Args[0].Kind != "field" {
+				cxFail("preservedFields(T.f)")
+			}
+			T, _ := e.resolveType(n.Args[0].Args[0].String())
+			st := T.Underlying().(*types.Struct)
+			for i := 0; i < st.NumFields(); i++ {
+				if st.Field(i).Name() == n.Args[0].Name {
+					keys = []string{g.fieldKey(T, i)}
+				}
+			}
+		}
+		var cs []string
+		for _, k := range keys {
+			cs = append(cs, fmt.Sprintf("(forall ((|o| Int)) (=> (<= |o| %s) (= (select %s |o|) (select %s |o|))))", g.get(e.fc.entry, "$alloc"), g.get(e.state, k), g.get(e.fc.entry, k)))
+		}
+		return Val{t: and(cs), ty: tBool}
+	case "local":
+		// local(x): the current value of the local variable x that lives in memory (e.g. a parameter
+		// that is re-assigned and captured by a closure), as opposed to the entry value of parameter x
+		nm := n.Args[0].Name
+		for c := e.fc; c != nil; c = c.parent {
+			if al, ok := c.named[nm]; ok {
+				if v, ok := c.vals[al]; ok {
+					T := al.Type().Underlying().(*types.Pointer).Elem()
+					saved := c.cur
+					c.cur = e.state
+					t := c.loadWhole(v.t, T)
+					c.cur = saved
+					return Val{t: t, ty: T}
+				}
+			}
+		}
+		cxFail("local(%s): no such memory-resident local", nm)
+	case "cast":
+		// cast(x, "*pkg.T"): the value of interface x as dynamic type *pkg.T (use together with typeIs)
+		v := e.expr(n.Args[0])
+		T, _ := e.resolveType(n.Args[1].Name)
+		return Val{t: e.fc.unboxT(T, fmt.Sprintf("(ival %s)", v.t)), ty: T}
+	case "isType":
+		v := e.expr(n.Args[0])
+		T, _ := e.resolveType(n.Args[1].Name)
+		return Val{t: fmt.Sprintf("(= (itag %s) %d)", v.t, g.sorts.typeID(T)), ty: tBool}
 	case "cleanRoot":
 		a := args()
 		g.declareFun("|cleanRoot|", "(String) Bool")
@@ -656,6 +767,10 @@ func (e *Env) call(n *CNode) Val {
 		a := args()
 		k := e.theVisKey()
 		return Val{t: fmt.Sprintf("(select %s %s)", g.get(e.state, k), a[0].t), ty: tBool}
+	case "freshRef2":
+		// freshRef2(s): the backing array of slice s was allocated after function entry
+		v := e.expr(n.Args[0])
+		return Val{t: fmt.Sprintf("(< %s (sarr %s))", g.get(e.fc.entry, "$alloc"), v.t), ty: tBool}
 	case "visitedCount":
 		k := "N|" + strings.TrimPrefix(e.theVisKey(), "V|")
 		return Val{t: g.get(e.state, k), ty: tMath}
